@@ -1,6 +1,8 @@
 #!/bin/bash
 # tools/matrix.sh [seed dirs...] — catch matrix: every quick check against every seeded change, in a scratch
 # copy of /repo and /verif under /tmp/mx (so /repo itself is not touched). Writes /verif/seeded/MATRIX.tsv.
+# Generated sub-checks run at VERIF_CASES_PERCENT (default 25) of their quick case counts, so an X is a lower
+# bound on what the registered quick command finds; exhaustive sub-checks run in full.
 set -u
 MX=/tmp/mx
 rm -rf $MX; mkdir -p $MX
@@ -9,6 +11,7 @@ cp /repo/Cargo.lock $MX/repo/
 rsync -a --exclude target --exclude replays --exclude evidence /verif/ $MX/verif/
 sed -i "s#/repo/#$MX/repo/#g" $MX/verif/harness/Cargo.toml
 export VERIF_TARGET_DIR=$MX/target
+export VERIF_CASES_PERCENT=${VERIF_CASES_PERCENT:-25}
 OUT=/verif/seeded/MATRIX.tsv
 SEEDS=("$@"); [ ${#SEEDS[@]} -eq 0 ] && SEEDS=($(ls -d /verif/seeded/C*-v* | xargs -n1 basename))
 IDS=$(for i in $(seq -w 1 20); do echo C$i; done)
